@@ -68,3 +68,24 @@ Definition conc_sock_ok (tne : bool) (k : csock) : bool :=
 Definition conc_ok (c : ccase) : bool :=
   let '(T, E, socks) := c in
   forallb (conc_sock_ok (negb (Nat.eqb (length T) 0))) socks.
+
+(** * Join racing Disconnect (forced schedule through the public Debugger hook).
+    case = (forced, Adapter.SocketRooms(id) ok, its rooms, ServerSocket.Rooms() size), observed
+    after both calls returned.  Join holds joinMu for the whole call and onClose takes joinMu to
+    swap in the no-op, so the two are atomic with respect to each other: the model outcomes are
+    the two linearisations. *)
+Definition jcase := (bool * bool * list positive * nat)%type.
+
+Definition joinrace_outcome (h : list nop) : bool * list positive :=
+  let n := nrun h in
+  (bool_decide (1 ∈ dom (a_sids (n_ad n))), elements (sid_rooms (n_ad n) 1)).
+
+Definition joinrace_agree (c : jcase) : bool :=
+  let '(forced, ok, rooms, k) := c in
+  let o1 := joinrace_outcome [NConnect 1; NJoin 1 [9]; NDisconnect 1] in
+  let o2 := joinrace_outcome [NConnect 1; NDisconnect 1; NJoin 1 [9]] in
+  (bool_decide ((ok, rooms) = o1) || bool_decide ((ok, rooms) = o2)) && Nat.eqb k (length rooms).
+
+(** the property: a disconnected socket belongs to no room *)
+Definition joinrace_oracle (c : jcase) : bool :=
+  let '(forced, ok, rooms, k) := c in negb ok && Nat.eqb (length rooms) 0 && Nat.eqb k 0.
